@@ -1,6 +1,6 @@
 (** Helpers for the generated correspondence files: the implementation's observable output as
     data, and one comparison per property (each looks only at the observables it is about). *)
-From Coq Require Import String List Arith Bool ZArith PrimFloat.
+From Coq Require Import String List Arith Bool ZArith QArith Qabs PrimFloat.
 From CR Require Export Model.Num Model.Outcome Model.Graph Model.Game.
 Import ListNotations.
 
@@ -115,3 +115,18 @@ Definition fuel_for_reach (x : xreach) : nat :=
   match x with XROk _ _ i => i + 3 | _ => N.to_nat 60000 end.
 Definition run_reach_cases (cs : list reach_case) : list nat :=
   idx_where (fun c => negb (cmp_reach (solve_reach_fuel fops (fuel_for_reach (snd c)) (fst (fst c)) (snd (fst c))) (snd c))) cs.
+
+(** * The same runs on exact rationals: how far binary64 drifts from the idealisation the numeric
+    theorems are about. Inputs are the exact rational values of the floats the implementation saw. *)
+Definition QF (m e : Z) : Q :=
+  if (0 <=? e)%Z then inject_Z (m * 2 ^ e) else Qmake m (Z.to_pos (2 ^ (- e))).
+Arguments QF (m e)%Z_scope.
+Definition qclose (tol : Q) (a b : Q) : bool := Qle_bool (Qabs.Qabs (a - b)%Q) tol.
+(* case: exact game, pruning flag, the implementation's probabilities (as exact rationals), its sweep count *)
+Definition qreach_case := (game (T:=Q) * bool * list Q * nat)%type.
+Definition run_qreach_cases (tol : Q) (cs : list qreach_case) : list nat :=
+  idx_where (fun c =>
+    match solve_reach_fuel qops (snd c + 50) (fst (fst (fst c))) (snd (fst (fst c))) with
+    | Ok r => negb (list_eqb (qclose tol) (map (reach (T:=Q)) (fst (fst r))) (snd (fst c)))
+    | _ => true
+    end) cs.
